@@ -1,4 +1,5 @@
 import OnetVerif.Model.C04
+import OnetVerif.Props.C05
 import OnetVerif.Shapes
 /-! Property C04 — aggregated message types are delivered as one complete batch per round.
 Only property theorems, their non-vacuity examples and the lemmas they need. -/
@@ -1401,4 +1402,200 @@ theorem c04_shape_TreeNodeInstance_RegisterChannelLength_b2 :
      "assign:n.messageTypeFlags[typ]=flags", "return:nil"] := rfl
 
 
+/-! ## Composition with the instance's reader (property C05's model and theorems, imported) -/
+namespace Comp
+
+/-- one instance as the code runs it: C05's state machine of `ProcessProtocolMsg` / `dispatchMsgReader` /
+`closeDispatch` (queue, wake-up token, reader), plus `msgQueue` and the batches handed to `dispatchMsgToProtocol`'s
+second half so far.  `aggregate` runs where the code calls it: on the reader goroutine, when it takes a message off
+the queue and enters `dispatchMsgToProtocol` (C05's step `top → handling m`). -/
+structure St where
+  inst : C05.St := {}
+  q    : Queues := emptyQ
+  out  : List (List Msg) := []
+
+/-- what the reader's step adds: the message it has just entered the handler with, if any -/
+def entered (s s' : C05.St) : Option Nat :=
+  match s.pc, s'.pc with
+  | .top, .handling m => some m
+  | _, _ => none
+
+def step (cfg : Cfg) (μ : Nat → Msg) (s : St) (a : C05.Act) : Option St :=
+  match C05.step s.inst a with
+  | none => none
+  | some i' =>
+    match entered s.inst i' with
+    | some m =>
+      let r := aggregate cfg s.q (μ m)
+      some { inst := i', q := r.1, out := s.out ++ r.2.toList }
+    | none => some { s with inst := i' }
+
+/-- any schedule of feeders (`accept`), reader steps and `close`; a blocked thread does not move -/
+def run (cfg : Cfg) (μ : Nat → Msg) (s : St) : List C05.Act → Option St
+  | [] => some s
+  | a :: as => match step cfg μ s a with
+      | some s' => run cfg μ s' as
+      | none => run cfg μ s as
+
+theorem run_snoc (cfg : Cfg) (q : Queues) (l : List Msg) (m : Msg) :
+    C04.run cfg q (l ++ [m]) =
+      ((aggregate cfg (C04.run cfg q l).1 m).1, (C04.run cfg q l).2 ++ (aggregate cfg (C04.run cfg q l).1 m).2.toList) := by
+  rw [run_append]; simp [C04.run]
+
+/-- the glue invariant: the queues and the dispatched batches are `C04.run` over the handlers started so far -/
+def Glue (cfg : Cfg) (μ : Nat → Msg) (s : St) : Prop :=
+  C04.run cfg emptyQ (s.inst.started.map μ) = (s.q, s.out)
+
+theorem started_step (s s' : C05.St) (a : C05.Act) (h : C05.step s a = some s') :
+    s'.started = s.started ++ (entered s s').toList := by
+  cases a with
+  | accept m =>
+    simp only [C05.step] at h
+    split at h <;> simp at h <;> subst h <;> simp [entered] <;> cases s.pc <;> simp
+  | close => simp [C05.step] at h; subst h; simp [entered]; cases s.pc <;> simp
+  | reader =>
+    simp only [C05.step] at h
+    split at h
+    · rename_i hpc
+      split at h
+      · simp at h; subst h; simp [entered, hpc]
+      · split at h <;> simp at h <;> subst h <;> simp [entered, hpc]
+    · rename_i hpc; simp at h; subst h; simp [entered, hpc]
+    · rename_i hpc; split at h <;> simp at h; subst h; simp [entered, hpc]
+    · simp at h
+
+theorem glue_step (cfg : Cfg) (μ : Nat → Msg) (s s' : St) (a : C05.Act) (hg : Glue cfg μ s)
+    (h : step cfg μ s a = some s') : Glue cfg μ s' ∧ C05.step s.inst a = some s'.inst := by
+  unfold step at h
+  cases hi : C05.step s.inst a with
+  | none => simp [hi] at h
+  | some i' =>
+    have hs := started_step _ _ _ hi
+    simp only [hi] at h
+    cases he : entered s.inst i' with
+    | none =>
+      simp [he] at h; subst h
+      simp [he] at hs
+      exact ⟨by unfold Glue at hg ⊢; simp [hs, hg], rfl⟩
+    | some m =>
+      simp [he] at h; subst h
+      simp [he] at hs
+      refine ⟨?_, rfl⟩
+      unfold Glue at hg ⊢
+      simp only [hs, List.map_append, List.map_cons, List.map_nil, run_snoc, hg]
+
+theorem glue_run (cfg : Cfg) (μ : Nat → Msg) (as : List C05.Act) (s s' : St) (hg : Glue cfg μ s)
+    (h : run cfg μ s as = some s') : Glue cfg μ s' ∧ C05.run s.inst as = some s'.inst := by
+  induction as generalizing s with
+  | nil => simp [run] at h; subst h; exact ⟨hg, rfl⟩
+  | cons a as ih =>
+    simp only [run] at h
+    cases hs : step cfg μ s a with
+    | some s1 =>
+      simp only [hs] at h
+      have h1 := glue_step cfg μ s s1 a hg hs
+      have h2 := ih s1 h1.1 h
+      exact ⟨h2.1, by simp [C05.run, h1.2, h2.2]⟩
+    | none =>
+      simp only [hs] at h
+      have h2 := ih s hg h
+      have : C05.step s.inst a = none := by
+        unfold step at hs
+        cases hi : C05.step s.inst a with
+        | none => rfl
+        | some i' => simp [hi] at hs; split at hs <;> simp at hs
+      exact ⟨h2.1, by simp [C05.run, this, h2.2]⟩
+
+
+/-- **the batches follow the acceptance order, under every schedule** (C05's `c05_fifo`, instantiated): whatever
+the interleaving of any number of feeding goroutines, reader steps and `closeDispatch`, the queues and the batches
+dispatched are those of `C04.run` — the sequential model every C04 theorem is about — over a *prefix of the accepted
+messages in acceptance order*.  `aggregate` never sees a message twice, out of order, or two at once. -/
+theorem c04_comp_batches_follow_acceptance (cfg : Cfg) (μ : Nat → Msg) (as : List C05.Act) (s : St)
+    (h : run cfg μ {} as = some s) :
+    ∃ pre, pre <+: s.inst.accepted ∧ C04.run cfg emptyQ (pre.map μ) = (s.q, s.out) := by
+  have hg := glue_run cfg μ as {} s (by simp [Glue, C04.run]) h
+  exact ⟨s.inst.started, C05.c05_fifo as s.inst hg.2, hg.1⟩
+
+/-- **at quiescence every accepted message went through `aggregate`, once, in acceptance order** (C05's
+`c05_quiescent_all_handled` + `c05_serial` + `c05_fifo`, instantiated): when the reader can do nothing more and the
+instance was not closed, the state is exactly `C04.run` over ALL accepted messages. -/
+theorem c04_comp_quiescent (cfg : Cfg) (μ : Nat → Msg) (as : List C05.Act) (s : St)
+    (h : run cfg μ {} as = some s) (hb : C05.step s.inst .reader = none) (hc : s.inst.closing = false) :
+    C04.run cfg emptyQ (s.inst.accepted.map μ) = (s.q, s.out) := by
+  have hg := glue_run cfg μ as {} s (by simp [Glue, C04.run]) h
+  have hq := C05.c05_quiescent_all_handled as s.inst hg.2 hb hc
+  obtain ⟨r, hr, _⟩ := C05.c05_serial as s.inst hg.2
+  have hf := C05.c05_fifo as s.inst hg.2
+  have : s.inst.started = s.inst.accepted := by
+    have hl := hf.length_le
+    rw [hr, hq.1] at hl ⊢
+    have : r = [] := by
+      cases r with
+      | nil => rfl
+      | cons x xs => simp at hl; omega
+    simp [this]
+  have hg1 := hg.1
+  unfold Glue at hg1
+  rw [this] at hg1
+  exact hg1
+
+/-- **the property's batch clause, end to end from the hand-over**: if the messages handed to the instance
+(`ProcessProtocolMsg`, by any number of goroutines in any interleaving with the reader) contain the children's
+messages of aggregated type `t` as `k` consecutive rounds of one message per child, then at quiescence exactly
+those `k` batches have been dispatched for `t`, each holding its round, and nothing of `t` waits — `c04_rounds`
+with its hypothesis "arrival order" discharged by C05's theorems instead of assumed. -/
+theorem c04_comp_rounds (cfg : Cfg) (μ : Nat → Msg) (as : List C05.Act) (s : St) (t : Nat) (rounds : List (List Msg))
+    (h : run cfg μ {} as = some s) (hb : C05.step s.inst .reader = none) (hc : s.inst.closing = false)
+    (hn : 1 ≤ cfg.nChildren) (hr : ∀ r ∈ rounds, r.length = cfg.nChildren)
+    (hl : (s.inst.accepted.map μ).filter (kid cfg t) = rounds.flatten) :
+    proj cfg t (s.q, s.out) = (rounds, []) := by
+  rw [← c04_comp_quiescent cfg μ as s h hb hc]
+  exact c04_rounds cfg t emptyQ _ rounds rfl hn hr hl
+
+/-- **nothing before the last child, under every schedule**: as long as fewer than `nChildren` children's
+messages of type `t` have been *accepted*, no batch of type `t` has been dispatched — whatever the reader has or
+has not done yet. -/
+theorem c04_comp_nothing_before_complete (cfg : Cfg) (μ : Nat → Msg) (as : List C05.Act) (s : St) (t : Nat)
+    (h : run cfg μ {} as = some s) (hn : 1 ≤ cfg.nChildren)
+    (hlt : ((s.inst.accepted.map μ).filter (kid cfg t)).length < cfg.nChildren) :
+    s.out.filter (isAggBatch cfg t) = [] := by
+  obtain ⟨pre, hp, hrun⟩ := c04_comp_batches_follow_acceptance cfg μ as s h
+  have hc := (c04_batch_count cfg t (pre.map μ) hn).1
+  rw [hrun] at hc
+  have hsub : ((pre.map μ).filter (kid cfg t)).length ≤ ((s.inst.accepted.map μ).filter (kid cfg t)).length := by
+    obtain ⟨suf, hs⟩ := hp
+    rw [← hs]; simp [List.filter_append]
+  have : ((pre.map μ).filter (kid cfg t)).length / cfg.nChildren = 0 := Nat.div_eq_of_lt (by omega)
+  simp only at hc
+  rw [this] at hc
+  exact List.eq_nil_of_length_eq_zero hc
+
+/-- **`closing`**: a message handed over after `closeDispatch` never reaches `aggregate` (C05's `accept` on a
+closing instance changes nothing): the state is that of the schedule without it. -/
+theorem c04_comp_closed_takes_nothing (cfg : Cfg) (μ : Nat → Msg) (s : St) (m : Nat) (hc : s.inst.closing = true) :
+    step cfg μ s (.accept m) = some s := by
+  simp [step, C05.step, hc, entered]
+  cases s.inst.pc <;> simp
+
+/-! non-vacuity: two feeders and the reader interleaved, two children, one aggregated type; and the variant the
+serialisation rules out -/
+private def cfg2 : Cfg := { isRoot := true, nChildren := 2, agg := fun t => t == 1 }
+private def mu (i : Nat) : Msg := { ty := 1, src := some (i % 2), val := i }
+
+example : (run cfg2 mu {} [.accept 0, .reader, .accept 1, .reader, .reader, .reader, .reader, .reader, .reader]).map
+    (fun s => (s.out, s.inst.accepted, decide (C05.step s.inst .reader = none), s.inst.closing))
+    = some ([[mu 0, mu 1]], [0, 1], true, false) := by decide
+
+/-- **negation witness for the variant without the single reader** (the hand-over goroutines call `aggregate`
+themselves, as `ProcessProtocolMsg` would without queue and reader): two children's messages arriving on two
+connections both read `msgQueue[t]` before either writes it back — the second write wins, the first child's
+message is gone and the batch is never dispatched, although every child has sent. -/
+theorem c04_comp_unserialised_loses_batch :
+    let q0 := emptyQ
+    let serial := aggregate cfg2 (aggregate cfg2 q0 (mu 0)).1 (mu 1)
+    let racy := aggregate cfg2 q0 (mu 1)      -- computed from the queues as they were BEFORE `mu 0` was stored
+    serial.2 = some [mu 0, mu 1] ∧ racy.2 = none ∧ racy.1 1 = [mu 1] := by decide
+
+end Comp
 end C04
